@@ -827,7 +827,7 @@ func (g *g) call() (node, bool) {
 	if !g.room(f.cost + 1) {
 		return nil, false
 	}
-	if (g.inPipe > 0 || g.inSubst > 0) && (f.io || f.stderr) || g.noPipe > 0 && f.pipe {
+	if (g.inPipe > 0 || g.inSubst > 0) && (f.io || f.stderr) || g.noPipe > 0 && (f.pipe || f.io) {
 		return nil, false
 	}
 	if g.noCondSub && g.inCond > 0 && f.sub {
@@ -1714,7 +1714,9 @@ func (g *g) stmt(loopBody bool) node {
 	for try := 0; try < 4; try++ {
 		k := g.n(0, 45, "stmt")
 		mut := g.pure == 0
-		file := g.inPipe == 0 && g.inSubst == 0
+		// inside a 2>&1 context nothing may write a diagnostic: the
+		// message of "cat missing-file" would reach stdout
+		file := g.inPipe == 0 && g.inSubst == 0 && g.noPipe == 0
 		switch {
 		case k <= 5:
 			return g.echo()
